@@ -205,45 +205,43 @@ def build(g, ua, jitter_kind="sampled"):
                                        sigma_K0=np.float64((math.sqrt(g["sK0sq"]) * kms).to_value(ku)) * ku,
                                        P0=np.float64((P0_days * u.day).to_value(U(ua["p0"]))) * U(ua["p0"]),
                                        sigma_v=sv if len(sv) > 1 else sv[0], s=s_arg, poly_trend=poly, v0_offsets=offs, model=model)
-    with pm.Model() as model:
-        if via_default:
-            pass
-        pu = U(ua["pprior"])
-        P = xu.with_unit(pm.Uniform("P", np.float64(0.01), np.float64(1000.0)), pu)
-        e = xu.with_unit(pm.Uniform("e", np.float64(0.0), np.float64(0.99)), u.one)
-        om = xu.with_unit(pm.Uniform("omega", np.float64(0.0), np.float64(2 * np.pi)), u.rad)
-        M0 = xu.with_unit(pm.Uniform("M0", np.float64(0.0), np.float64(2 * np.pi)), u.rad)
-        su = U(ua["ss"])
-        if jitter_kind == "sampled":
-            s = xu.with_unit(pm.Uniform("s", np.float64(0.0), np.float64(50000.0)), su)
-        else:
-            s = xu.with_unit(pm.Deterministic("s", pt.constant(np.float64((math.sqrt(g["s2"]) * kms).to_value(su)))), su)
-        if g["kkind"] == "default":
-            K = xu.with_unit(FixedCompanionMass("K", P=P, e=e,
-                                                sigma_K0=np.float64((math.sqrt(g["sK0sq"]) * kms).to_value(ku)) * ku,
-                                                P0=np.float64((P0_days * u.day).to_value(U(ua["p0"]))) * U(ua["p0"]),
-                                                mu=np.float64((g["muK"] * kms).to_value(ku)),
-                                                max_K=np.float64((ua["maxK"] * kms).to_value(ku)) * ku), ku)
-        else:
-            K = xu.with_unit(pm.Normal("K", np.float64((g["muK"] * kms).to_value(ku)),
-                                       np.float64((math.sqrt(g["varK"][0]) * kms).to_value(ku))), ku)
-        pars = {"P": P, "e": e, "omega": om, "M0": M0, "s": s, "K": K}
-        offs = []
-        slot_names = ["v0"] + ["dv0_%d" % j for j in range(1, noff + 1)] + ["v%d" % i for i in range(1, poly)]
-        tu = U(ua["slope_t"])
-        for i, name in enumerate(slot_names):
-            vu = U(ua["lin"][i])
-            power = int(name[1:]) if name.startswith("v") and not name.startswith("dv") else 0
-            unit = vu / tu ** power if power else vu
-            phys = kms / u.day ** power if power else kms
-            var_ = xu.with_unit(pm.Normal(name, np.float64((g["mu"][i] * phys).to_value(unit)),
-                                          np.float64((math.sqrt(g["var"][i]) * phys).to_value(unit))), unit)
-            if name.startswith("dv0"):
-                offs.append(var_)
-            else:
-                pars[name] = var_
-        if not via_default:
-            prior = JokerPrior(pars=pars, poly_trend=poly, v0_offsets=offs, model=model)
+    if not via_default:
+      with pm.Model() as model:
+          pu = U(ua["pprior"])
+          P = xu.with_unit(pm.Uniform("P", np.float64(0.01), np.float64(1000.0)), pu)
+          e = xu.with_unit(pm.Uniform("e", np.float64(0.0), np.float64(0.99)), u.one)
+          om = xu.with_unit(pm.Uniform("omega", np.float64(0.0), np.float64(2 * np.pi)), u.rad)
+          M0 = xu.with_unit(pm.Uniform("M0", np.float64(0.0), np.float64(2 * np.pi)), u.rad)
+          su = U(ua["ss"])
+          if jitter_kind == "sampled":
+              s = xu.with_unit(pm.Uniform("s", np.float64(0.0), np.float64(50000.0)), su)
+          else:
+              s = xu.with_unit(pm.Deterministic("s", pt.constant(np.float64((math.sqrt(g["s2"]) * kms).to_value(su)))), su)
+          if g["kkind"] == "default":
+              K = xu.with_unit(FixedCompanionMass("K", P=P, e=e,
+                                                  sigma_K0=np.float64((math.sqrt(g["sK0sq"]) * kms).to_value(ku)) * ku,
+                                                  P0=np.float64((P0_days * u.day).to_value(U(ua["p0"]))) * U(ua["p0"]),
+                                                  mu=np.float64((g["muK"] * kms).to_value(ku)),
+                                                  max_K=np.float64((ua["maxK"] * kms).to_value(ku)) * ku), ku)
+          else:
+              K = xu.with_unit(pm.Normal("K", np.float64((g["muK"] * kms).to_value(ku)),
+                                         np.float64((math.sqrt(g["varK"][0]) * kms).to_value(ku))), ku)
+          pars = {"P": P, "e": e, "omega": om, "M0": M0, "s": s, "K": K}
+          offs = []
+          slot_names = ["v0"] + ["dv0_%d" % j for j in range(1, noff + 1)] + ["v%d" % i for i in range(1, poly)]
+          tu = U(ua["slope_t"])
+          for i, name in enumerate(slot_names):
+              vu = U(ua["lin"][i])
+              power = int(name[1:]) if name.startswith("v") and not name.startswith("dv") else 0
+              unit = vu / tu ** power if power else vu
+              phys = kms / u.day ** power if power else kms
+              var_ = xu.with_unit(pm.Normal(name, np.float64((g["mu"][i] * phys).to_value(unit)),
+                                            np.float64((math.sqrt(g["var"][i]) * phys).to_value(unit))), unit)
+              if name.startswith("dv0"):
+                  offs.append(var_)
+              else:
+                  pars[name] = var_
+          prior = JokerPrior(pars=pars, poly_trend=poly, v0_offsets=offs, model=model)
     try:
         prior._verif_via_default = bool(via_default)
     except Exception:
@@ -557,8 +555,10 @@ def realize_mcmc(case):
                 ok = False
                 ev["init_mismatch"] = [nm, got, float(want)]
         ev["initok"] = bool(ok and set(init.keys()) >= set(prior.par_names))
-        ev["freeok"] = bool(all(any(v is p[nm] for v in m.free_RVs) or nm == "s" and case.get("jitter_kind") != "sampled"
-                                for nm in prior.par_names))
+        # every parameter of the prior is a variable OF THE MODEL setup_mcmc returns: a free RV, or a named deterministic
+        # transform of free RVs (a constant jitter; the angles of JokerPrior.default, which pymc_ext builds from a unit disk)
+        named = list(m.free_RVs) + list(m.deterministics)
+        ev["freeok"] = bool(all(any(v is p[nm] for v in named) for nm in prior.par_names))
         inputs = [p[nm] for nm in prior.par_names]
         import pymc as pm
         f = pytensor.function(inputs, [m["model_rv"], m["ln_likelihood"], pm.logp(m["obs"], m.rvs_to_values[m["obs"]] if False else np.asarray(merged.rv.value)).sum()],
